@@ -62,7 +62,7 @@ def dump (w : W) : String :=
 /-- the durable image, as a restart would present it -/
 def dumpDur (w : W) : String :=
   let ks := w.dur.mergeSort (fun a b => a.id ≤ b.id)
-  "D" ++ String.join (ks.map fun d => s!" [id={d.id} r={showRemark d.remark} e={d.ext} i={d.int}]")
+  "D" ++ String.join (ks.map fun d => s!" [id={d.id} r={showRemark d.remark} e={d.ext} i={d.int} recs={d.ext}/{d.int}]")
 
 def parseOp (toks : List String) : Option Op :=
   match toks with
@@ -98,6 +98,20 @@ def stepLine (w : W) (toks : List String) : W × String :=
   | ["fresh", p] => match parsePass p with
     | some p => ({ pubPass := p, files := w.files }, "ok")     -- another wallet; exported files travel
     | none => (w, "bad-op")
+  | "fault" :: kind :: _ :: ":" :: opToks =>
+    -- C12: the operation is struck by a storage fault; the model state does not advance (the harness
+    -- runs every experiment on a replica) and the line reports what a reopened wallet presents
+    match parseOp opToks with
+    | none => (w, "bad-op")
+    | some op =>
+      let (w', o) := step w op
+      match o with
+      | .err _ => (w, showOut o ++ " | " ++ dumpDur w)        -- fails before any write: the fault cannot fire
+      | _ =>
+        if kind = "failwrite" ∨ kind = "failcommit" then (w, "err rejected | " ++ dumpDur w)
+        else if kind = "crashwrite" then (w, "crashed | " ++ dumpDur w)
+        else if kind = "crashcommit" then (w, "crashed | " ++ dumpDur w')
+        else (w, "bad-op")
   | ["dump"] => (w, dump w)
   | ["dumpdur"] => (w, dumpDur w)
   | _ => match parseOp toks with
